@@ -141,6 +141,31 @@ theorem C04_plain_values (K : KeyedOp γ) (F : Frame γ) (p : Parent) (deps : Li
   · rw [hrw, evalRw_keep]
     exact keyed_values K F extra p.cols _ had hk c hc
 
+/-- Filter: when the filter-push-down guard fires nothing happens, otherwise the rule is `plain` -/
+theorem C04_filter_wf (blocked : Bool) (frame : List Name) (p : Parent) (hp : p.overFrame) (deps : List Dep) (rw : Rw)
+    (h : filterRule blocked frame p deps = some rw) :
+    blocked = false ∧ ∃ s, rw.childs = [some s] ∧ rw.gone = false ∧ Adequate frame [] p.cols s.toList ∧
+      (rw.keep = false → s = p.operand) ∧ (∀ c, s = .one c → p = .scalar c ∧ rw.keep = false) := by
+  cases blocked with
+  | true => cases h
+  | false => exact ⟨rfl, C04_plain_wf frame p hp deps [] rw h⟩
+
+theorem C04_filter_labels (K : KeyedOp γ) (hid : ∀ l, K.outCols l = l) (F : Frame γ) (p : Parent) (deps : List Dep)
+    (rw : Rw) (h : filterRule false F.cols p deps = some rw) : (evalRw K.op p.cols rw F).cols = p.cols :=
+  C04_plain_labels K hid F p deps [] rw h
+
+theorem C04_filter_values (K : KeyedOp γ) (hk : K.keys = []) (F : Frame γ) (p : Parent) (deps : List Dep)
+    (rw : Rw) (h : filterRule false F.cols p deps = some rw) (c : Name) (hc : c ∈ p.cols) :
+    (evalRw K.op p.cols rw F).val c = (evalOrig K.op p.cols F).val c :=
+  C04_plain_values K F p deps [] rw h (fun k hkk => by rw [hk] at hkk; cases hkk) c hc
+
+/-- ExplodeFrame passes its `column` as an additional column: it is kept -/
+theorem C04_explode_wf (frame : List Name) (column : Name) (hc : column ∈ frame) (p : Parent) (hp : p.overFrame)
+    (deps : List Dep) (rw : Rw) (h : plain frame p deps [column] = some rw) :
+    ∃ s, rw.childs = [some s] ∧ column ∈ s.toList := by
+  obtain ⟨s, hs, _, had, _, _⟩ := C04_plain_wf frame p hp deps [column] rw h
+  exact ⟨s, hs, had.keys column (by simp) hc⟩
+
 /-- FULL STATEMENT (false on the current tree): `C04_plain_wf` for every Projection parent.
     Over a 1-d input (`df.sum()[['a']]`: the labels of a reduction result) the parent has `ndim == 1` although its
     operand is a list, determine_column_projection collapses to the scalar `'a'`, and the rule builds
@@ -309,13 +334,6 @@ example : ∃ K : KeyedOp Nat, K.keys = ["k"] ∧ OutMono K :=
 
 /-! ### 4. ResetIndex (frame input): the label guard (D25) and the switch to `drop=True` -/
 
-/-- value of the rewritten `reset_index` expression (the new node's `drop` is `rw.drop`) -/
-def evalReset (R : ResetOp γ) (P : List Name) (rw : Rw) (F : Frame γ) : Frame γ :=
-  let inp := match rw.childs with
-    | [some s] => F.select s.toList
-    | _ => F
-  if rw.keep then (R.op rw.drop inp).select P else R.op rw.drop inp
-
 theorem C04_resetindex_wf (frame : List Name) (drop named : Bool) (p : Parent) (hp : p.overFrame) (deps : List Dep) (rw : Rw)
     (h : resetIndex frame drop named p deps = some rw) :
     (drop = true ∨ named = true ∨ "index" ∉ frame) ∧
@@ -430,12 +448,6 @@ theorem C04_resetindex_unguarded_counterexample :
 
 /-! ### 5. sources absorbing the projection -/
 
-def evalSource (S : SourceOp γ) (P : List Name) (rw : Rw) : Frame γ :=
-  let r := match rw.childs with
-    | [some s] => S.read s.toList
-    | _ => S.read []
-  if rw.keep then r.select P else r
-
 theorem C04_io_wf (selfCols : List Name) (p : Parent) (deps : List Dep) (rw : Rw) (h : ioAbsorb selfCols p deps = some rw) :
     ∃ child, rw.childs = [some (.many child)] ∧ Adequate selfCols [] p.cols child ∧
       (rw.keep = false → Sel.many child = p.operand) := by
@@ -520,18 +532,6 @@ theorem C04_prefix_wf (pre : String) (frame : List Name) (p : Parent) (deps : Li
 theorem C04_prefix_labels (R : RelabelOp γ) (F : Frame γ) (n : Nat) (p : Parent) (deps : List Dep)
     (rw : Rw) (h : affix false n F.cols p deps = some rw) : (evalRw R.op p.cols rw F).cols = p.cols :=
   C04_keep1_labels R.op p.cols rw _ F (affix_spec h)
-
-theorem append_left_inj' {pre a b : String} (h : pre ++ a = pre ++ b) : a = b := by
-  have := congrArg String.toList h
-  rw [String.toList_append, String.toList_append] at this
-  have := List.append_cancel_left this
-  rw [← String.ofList_toList (s := a), ← String.ofList_toList (s := b), this]
-
-theorem append_right_inj' {suf a b : String} (h : a ++ suf = b ++ suf) : a = b := by
-  have := congrArg String.toList h
-  rw [String.toList_append, String.toList_append] at this
-  have := List.append_cancel_right this
-  rw [← String.ofList_toList (s := a), ← String.ofList_toList (s := b), this]
 
 theorem C04_prefix_values (R : RelabelOp γ) (pre : String) (hf : R.f = fun c => pre ++ c) (F : Frame γ) (p : Parent)
     (deps : List Dep) (rw : Rw) (h : affix false pre.length F.cols p deps = some rw)
@@ -625,11 +625,6 @@ example : assign ["a", "b", "c"] ["z"] (.list ["a"]) [] = some { childs := [none
 example : assign ["a", "b"] ["z"] (.list ["b", "z", "a"]) [] = none := by decide
 
 /-! ### 8. column-wise binary operators: combine_first, Binop -/
-
-def evalBin (B : BinOp γ) (P : List Name) (rw : Rw) (X Y : Frame γ) : Frame γ :=
-  match rw.childs with
-  | [l, r] => (B.op (selOpt l X) (selOpt r Y)).select P
-  | _ => (B.op X Y).select P
 
 theorem C04_combinefirst_wf (frame other : List Name) (p : Parent) (deps : List Dep) (rw : Rw)
     (h : combineFirst frame other p deps = some rw) :
@@ -748,15 +743,6 @@ example : binop ["a", "b", "c"] (some ["a", "b", "c"]) none (.list ["c", "a"]) [
 
 /-! ### 9. AsType -/
 
-/-- value of the rewritten `astype` expression: the new node's dtype keys are `rw.keys` -/
-def evalAsType (A : AsTypeOp γ) (P : List Name) (rw : Rw) (F : Frame γ) : Frame γ :=
-  if rw.gone then F.select P
-  else
-    let inp := match rw.childs with
-      | [some s] => F.select s.toList
-      | _ => F
-    if rw.keep then (A.op rw.keys inp).select P else A.op rw.keys inp
-
 theorem C04_astype_labels (A : AsTypeOp γ) (F : Frame γ) (dkeys : Option (List Name)) (p : Parent) (hp : p.overFrame)
     (deps : List Dep) (rw : Rw) (h : astype F.cols dkeys p deps = some rw) : (evalAsType A p.cols rw F).cols = p.cols := by
   rcases astype_spec h with ⟨_, hrw⟩ | ⟨_, ⟨l, _, hrw⟩ | ⟨s, hs, hrw⟩⟩
@@ -767,9 +753,6 @@ theorem C04_astype_labels (A : AsTypeOp γ) (F : Frame γ) (dkeys : Option (List
     rw [A.op_cols, select_cols]
     have := (C04_detproj_collapse p hp deps [] s hs).1
     rw [this]; rfl
-
-theorem has_filter_iff {sel : Sel} {l : List Name} {c : Name} (h : sel.has c = true) :
-    (l.filter sel.has).contains c = l.contains c := filter_contains_of_pred h
 
 /-- every requested column is cast exactly when it was cast before -/
 theorem C04_astype_values (A : AsTypeOp γ) (F : Frame γ) (dkeys : Option (List Name)) (p : Parent)
@@ -872,11 +855,6 @@ example : astype ["a", "b", "c"] (some ["a"]) (.list ["c"]) [] = some { childs :
 
 /-! ### 10. Merge (Projection / Index parent) -/
 
-def evalMerge (M : MergeOp γ) (P : List Name) (rw : Rw) (X Y : Frame γ) : Frame γ :=
-  match rw.childs with
-  | [l, r] => (M.op (selOpt l X) (selOpt r Y)).select P
-  | _ => (M.op X Y).select P
-
 /-- what holds for EVERY merge: both pushed lists are duplicate-free sub-schemas (D1) and keep the join keys -/
 theorem C04_merge_wf (m : MergeP) (L R : List Name) (hL : L.Nodup) (hR : R.Nodup) (p : Parent) (deps : List Dep) (rw : Rw)
     (h : merge m L R p deps = some rw) :
@@ -887,44 +865,6 @@ theorem C04_merge_wf (m : MergeP) (L R : List Name) (hL : L.Nodup) (hR : R.Nodup
   refine ⟨_, _, by rw [hrw], by rw [hrw], merge_left_sub m L R _ hR, merge_right_sub m L R _ hR,
     merge_left_nodup m L R _ hL hR, merge_right_nodup m L R _ hL hR,
     fun k hk hkL => merge_left_keys m L R _ hR hk hkL, fun k hk hkR => merge_right_keys m L R _ hR hk hkR⟩
-
-/-- a join key that also names a column of the other side must be a key common to both sides -/
-def KeysDoNotCollide (m : MergeP) (L R : List Name) : Prop :=
-  (∀ c, c ∈ m.leftOn → c ∈ R → commonKey m c = true) ∧ (∀ c, c ∈ m.rightOn → c ∈ L → commonKey m c = true)
-
-theorem labelL_pruned (m : MergeP) (R pr : List Name) (c : Name) (hsub : ∀ x, x ∈ pr → x ∈ R)
-    (hpart : (R.contains c && !commonKey m c) = true → c ∈ pr) : labelL m pr c = labelL m R c := by
-  unfold labelL
-  by_cases hcol : (R.contains c && !commonKey m c) = true
-  · have hc := hpart hcol
-    simp only [Bool.and_eq_true] at hcol
-    rw [if_pos (by rw [Bool.and_eq_true]; exact ⟨List.contains_iff_mem.mpr hc, hcol.2⟩),
-        if_pos (by rw [Bool.and_eq_true]; exact ⟨hcol.1, hcol.2⟩)]
-  · rw [if_neg hcol]
-    have : ¬(pr.contains c && !commonKey m c) = true := by
-      intro hh
-      simp only [Bool.and_eq_true] at hh
-      apply hcol
-      rw [Bool.and_eq_true]
-      exact ⟨List.contains_iff_mem.mpr (hsub c (List.contains_iff_mem.mp hh.1)), hh.2⟩
-    rw [if_neg this]
-
-theorem labelR_pruned (m : MergeP) (L pl : List Name) (c : Name) (hsub : ∀ x, x ∈ pl → x ∈ L)
-    (hpart : (L.contains c && !commonKey m c) = true → c ∈ pl) : labelR m pl c = labelR m L c := by
-  unfold labelR
-  by_cases hcol : (L.contains c && !commonKey m c) = true
-  · have hc := hpart hcol
-    simp only [Bool.and_eq_true] at hcol
-    rw [if_pos (by rw [Bool.and_eq_true]; exact ⟨List.contains_iff_mem.mpr hc, hcol.2⟩),
-        if_pos (by rw [Bool.and_eq_true]; exact ⟨hcol.1, hcol.2⟩)]
-  · rw [if_neg hcol]
-    have : ¬(pl.contains c && !commonKey m c) = true := by
-      intro hh
-      simp only [Bool.and_eq_true] at hh
-      apply hcol
-      rw [Bool.and_eq_true]
-      exact ⟨List.contains_iff_mem.mpr (hsub c (List.contains_iff_mem.mp hh.1)), hh.2⟩
-    rw [if_neg this]
 
 /-- FULL STATEMENT (false on the current tree): `∀ m L R …, ℓ ∈ p.cols → ℓ ∈ mergeLabels m L R → ℓ ∈ mergeLabels m pl pr`
     (every requested label is still produced, with its suffix).
@@ -1032,24 +972,6 @@ example : mergeLabels ⟨["k"], ["k"], "_x", "_y"⟩ ["k", "b", "c"] ["k", "b", 
 
 /-! ### 11. Concat -/
 
-theorem concat_spec {axis1 inner : Bool} {frames : List (List Name)} {p : Parent} {deps : List Dep} {rw : Rw}
-    (h : concat axis1 inner frames p deps = some rw) :
-    rw.childs = frames.map (concatChild (detProj p deps []).toList) ∧
-    rw.dropped = frames.map (concatDropped axis1 (detProj p deps []).toList) := by
-  unfold concat at h
-  simp only at h
-  split at h
-  · cases h
-  · cases h; exact ⟨rfl, rfl⟩
-
-theorem concatChild_cases (columns f : List Name) :
-    concatChild columns f = none ∨ concatChild columns f = some (.many (f.filter (columns.contains ·))) := by
-  unfold concatChild
-  simp only
-  split
-  · exact Or.inl rfl
-  · exact Or.inr rfl
-
 /-- stacking rows (`axis=0`): no input is ever removed (D31), every input is left alone or pruned to a sub-schema that
     still has all requested columns it had -/
 theorem C04_concat_wf (inner : Bool) (frames : List (List Name)) (p : Parent) (deps : List Dep) (rw : Rw)
@@ -1068,6 +990,20 @@ theorem C04_concat_wf (inner : Bool) (frames : List (List Name)) (p : Parent) (d
     rcases concatChild_cases (detProj p deps []).toList f with h1 | h1
     · exact Or.inl h1
     · exact Or.inr ⟨_, h1, adequate_union_contains f p deps []⟩
+
+/-- labels: the parent projection is dropped only when the new Concat's own columns are exactly the requested list
+    (and the parent is a frame selection); otherwise it is re-applied -/
+theorem C04_concat_labels (axis1 inner : Bool) (frames : List (List Name)) (p : Parent) (deps : List Dep) (rw : Rw)
+    (h : concat axis1 inner frames p deps = some rw) (hk : rw.keep = false) :
+    concatCols axis1 inner (((frames.filter (fun f => !concatDropped axis1 (detProj p deps []).toList f)).map
+        (fun f => f.filter ((detProj p deps []).toList.contains ·)))) = p.cols ∧ p.ndim1 = false := by
+  unfold concat at h
+  simp only at h
+  split at h
+  · cases h
+  · cases h
+    simp only [Bool.not_eq_false', Bool.and_eq_true, decide_eq_true_eq, Bool.not_eq_true'] at hk
+    exact ⟨by rw [hk.1, Parent.operand_toList], hk.2⟩
 
 /-- values (`axis=0`): every input's block of a requested column is what it was — an input that has none of the
     requested columns still contributes its (null) block -/
